@@ -8,10 +8,10 @@ CHECKS = {
  "C01": (TV, "TLC refinement check: M6502 execution of emitted code vs CSem source semantics (SrcEval+Refine)", "6.C01",
          "Per generated program (GenProg.tla families, exhaustive in the thorough tier) TLC executes the code the real compiler emitted on the 6502 specification from boundary inputs x 2 ambient configurations and compares the halted state with the state the CSem specification prescribes; an alarm means no reading of the C dialect gives the observed result. Bounded to the generated vocabulary and inputs.",
          "Trusted: TLC, M6502/Enc6502/CSem (self-tested by ASSUMEs), harness renderer/linker/layout. Known defect classes are attributed by program shape (known_findings.json)."),
- "C02": (TV, "TLC sequential-product refinement: -O0 code vs -O1/-O2/-O3 code on M6502 (Refine pair mode)", "6.C02",
+ "C02": (TV, "TLC sequential-product refinement: -O0 code vs -O1/-O2/-O3 code on M6502 (Refine pair mode); Peephole.tla (optimize() as coded) model-checked and replayed into the real optimize()", "6.C02",
          "Each generated program is compiled at -O0..-O3; Refine.tla runs the -O0 code to completion, resets the machine with the optimised code on the same input and requires equal variables, X, Y, io log, faults and termination. Independent of the source semantics.",
          "Trusted: TLC, M6502/Enc6502, harness linker/layout."),
- "C03": (MC, "TLC: GenLayout enumeration -> check_branches via API -> Asm.tla ranges + Refine.tla path equality for all N/Z/C", "6.C03",
+ "C03": (MC, "TLC: GenLayout enumeration -> check_branches via API -> Asm.tla ranges + Refine.tla path equality for all N/Z/C; BranchFix.tla (check_branches as coded) model-checked and replayed into the real check_branches()", "6.C03",
          "All layouts of the GenLayout families (8 branch kinds incl. both <= pairs, forward/backward, displacements around the limit, three filler styles incl. inline size hints, cascades, shared labels) are repaired by the real check_branches(); Asm.tla measures every displacement with true encoding sizes; Refine.tla executes ideal and repaired code from all 8 N/Z/C states and compares paths.",
          "Trusted: TLC, Enc6502 sizes, M6502; layouts are driven through the public AssemblyCode API."),
  "C04": (MC, "TLC: Asm.tla two-pass assembler model over every emitted function (true Enc6502 sizes vs size_bytes)", "6.C04",
@@ -41,7 +41,7 @@ CHECKS = {
  "C12": (MC, "TLC: GenGraph generator + CallGraph.tla predicates (work-list reachability) over the published tree / in-use set / emitted JSRs", "6.C12",
          "GenGraph.tla enumerates acyclic call graphs over main,f1,f2,f3 with every call in a syntactic position (statement, condition, argument, loop body, return, ternary, switch case) and attributes (inline subsets, interrupt handler, unused function, prototypes first); CallGraph.tla checks: every source call is in the tree, every emitted JSR is reachable through it, in-use = Reach(tree, main + interrupts) exactly and covers the source-reachable set.",
          "Trusted: driver's rendering of call sites; one site per (caller, callee)."),
- "C14": (TV, "TLC sequential-product refinement: non-inline code vs code with subsets of the callees declared inline (Refine pair mode)", "6.C14",
+ "C14": (TV, "TLC sequential-product refinement: non-inline code vs code with subsets of the callees declared inline (Refine pair mode); Inline.tla (append_code as coded) model-checked and replayed into the real append_code()", "6.C14",
          "Programs with calls (arguments, results inside larger expressions, nested calls; callee bodies with loops, early returns, switch, locals, further calls) are compiled with no function inline and with subsets of the called functions inline; Refine.tla runs both from the same inputs and requires equal final variables, X, Y, faults and termination.",
          "Trusted: TLC, M6502, harness linker (inline bodies are expanded by the compiler; templates are not linked)."),
  "C15": (TV, "TLC sequential-product refinement of program pairs generated by the nine rewrite rules (GenProg RW family)", "6.C15",
